@@ -18,6 +18,15 @@ def _alarm(*a):
     raise _TO()
 
 
+def poison(value):
+    """Fill the small blocks numpy keeps for reuse with `value`: whatever the library allocates next without
+    initialising it (np.empty) then holds `value` - so that two runs that must agree (C15) differ exactly when a result
+    depends on uninitialised memory."""
+    import numpy as np
+    keep = [np.full(k, value, dtype=np.uint8) for k in range(1, 1025, 3) for _ in range(8)]
+    del keep
+
+
 def run_one(run, timeout):
     P, cfg = run["P"], run.get("cfg", {})
     kw = {}
@@ -30,6 +39,8 @@ def run_one(run, timeout):
     out = {"ok": "ok", "sols": [], "opt": [1, 0], "stats": []}
     signal.setitimer(signal.ITIMER_REAL, timeout)
     try:
+        if run.get("poison") is not None:
+            poison(run["poison"])
         prob = problems.to_nucs_incremental(P) if run.get("build") == "incremental" else problems.to_nucs(P)
         s = BacktrackSolver(prob, consistency_alg_idx=cfg.get("ca", 0), var_heuristic_idx=cfg.get("vh", 0),
                             dom_heuristic_idx=cfg.get("dh", 0), stack_max_height=cfg.get("height", 128), log_level="ERROR", **kw)
@@ -64,7 +75,7 @@ def main():
     with open(sys.argv[2], "w") as fh:
         for it in job["items"]:
             t0 = time.time()
-            res = [run_one(r, timeout) for r in it["runs"]]
+            res = [run_one(dict(r, poison=job["poison"]) if job.get("poison") is not None else r, timeout) for r in it["runs"]]
             fh.write(json.dumps({"rid": it["rid"], "res": res, "wall": round(time.time() - t0, 2)}, separators=(",", ":")) + "\n")
             fh.flush()
 
